@@ -35,7 +35,7 @@ pub fn run(ctx: &Ctx) -> i32 {
     let keys = [bind::key0(), bind::key1()];
     let nonces = [bind::nonce0(), bind::nonce1()];
     let full_bits_for = usize::MAX; // quick: all bit flips on the first 12 trees, one key/nonce; pristine checks on all
-    let acc = trees.par_iter().enumerate().map(|(ti, m)| {
+    let acc = trees.par_iter().enumerate().with_max_len(1).map(|(ti, m)| {
         let mut acc = Acc::new();
         let e = if m.encode().is_some() && ti >= trees.len() - 2 { bind::build_route(m, bind::Route::Decode) } else { bind::build(m, 0) };
         let ob = bind::observe(&e);
@@ -135,7 +135,7 @@ pub fn run(ctx: &Ctx) -> i32 {
     let fam: Vec<M> = { let mut f = families::plain(3); f.extend(families::marked(4).into_iter().skip(18).take(if th { 30 } else { 10 })); f };
     let fenv: Vec<Envelope> = fam.iter().map(|m| bind::build(m, 0)).collect();
     let key = bind::key0();
-    let acc2 = (0..fam.len()).into_par_iter().map(|i| {
+    let acc2 = (0..fam.len()).into_par_iter().with_max_len(1).map(|i| {
         let mut acc = Acc::new();
         for j in 0..fam.len() {
             if fam[i].digest() == fam[j].digest() { continue }
